@@ -671,7 +671,10 @@ def evaluate(ck, cases, impl, tag, count=True):
                 findings.append(("violation", "C15_ok is false on the implementation's script "
                                  "(backend %s, outcome %s)" % (c["backend"], o.get("exc") or "script"), cj))
         if not d["corr"]:
-            mo = model_obs_text(c)
+            # the model's observable is spelled out for the first few only
+            # (one coqc call each)
+            nshown = sum(1 for f in findings if f[0] == "mismatch")
+            mo = model_obs_text(c) if nshown < 3 else "(not evaluated: see the first mismatches)"
             # a disagreement on a case that only exhibits a known finding is
             # still a disagreement: the model describes the code as it is
             findings.append(("mismatch", "model and implementation disagree (backend %s)" % c["backend"], cj, mo))
